@@ -78,6 +78,7 @@ type Stats struct {
 	Samples                                                                 []string
 	Violations                                                              []Violation
 	ReachWitness                                                            int
+	SolverRestarts int
 	Notes                                                                   map[string]int
 	NoteErr                                                                 map[string]int
 	NoteSolver                                                              map[string]float64
